@@ -340,7 +340,7 @@ def run_library(spec, acc, api):
                        ('arraySlice', [[1, 2, 3, 4], 1, 3]), ('stringSlice', ['abcdef', 2, 4]), ('stringCharCodeAt', ['abc', 1]), ('jsonStringify', [{'a': [1]}, 2]),
                        ('arrayGet', [[5, 6, 7], 2]), ('arrayDelete', [[5, 6, 7], 0]), ('arrayIndexOf', [[1, 2, 1], 1, 1]), ('arrayLastIndexOf', [[1, 2, 1], 1, 1]),
                        ('stringIndexOf', ['abcabc', 'c', 3]), ('arrayIndexOf', [[True, 1, 0], 1]), ('arrayIndexOf', [[False, 0, 1], 0]), ('arrayLastIndexOf', [[1, True], 1]), ('arrayLastIndexOf', [[0, False], 0]),
-                       ('arrayIndexOf', [[[True], [1]], [1]]), ('mathMax', [True, 1, 0]), ('mathMin', [False, 0, 1]), ('arraySort', [[1, True, 0, False, 1]]), ('systemCompare', [1, True]), ('jsonStringify', [['5" pipe', 1, 'x']]), ('jsonStringify', [{'k"': 2, 'z': ['\\', 3]}]), ('stringNew', [['a"', 7, 'b']]), ('arrayJoin', [[['q"', 1, 'r']], ',']), ('stringLastIndexOf', ['abcabc', 'c', 3]), ('stringFromCharCode', [72, 105]), ('stringFromCharCode', [55357, 56832]), ('stringFromCharCode', [56832, 55357, 65]), ('stringFromCharCode', [55357]), ('arrayIndexOf', [[1700000000000, 1700000000001], 1700000000001]), ('arrayLastIndexOf', [[1700000000001, 1700000000000], 1700000000001]), ('arraySort', [[1700000000001, 1700000000000, 1700000000002]]), ('mathMax', [1700000000000, 1700000000001]), ('mathMin', [1700000000001, 1700000000000]), ('mathLog', [8, 2])]:
+                       ('arrayIndexOf', [[[True], [1]], [1]]), ('mathMax', [True, 1, 0]), ('mathMin', [False, 0, 1]), ('arraySort', [[1, True, 0, False, 1]]), ('systemCompare', [1, True]), ('jsonStringify', [['5" pipe', 1, 'x']]), ('jsonStringify', [{'k"': 2, 'z': ['\\', 3]}]), ('stringNew', [['a"', 7, 'b']]), ('arrayJoin', [[['q"', 1, 'r']], ',']), ('stringLastIndexOf', ['abcabc', 'c', 3]), ('stringFromCharCode', [72, 105]), ('stringNew', [1234567890123]), ('stringNew', [10 ** 14 + 7]), ('stringNew', [999999999999999]), ('stringNew', [-1234567890123456]), ('arrayJoin', [[1234567890123, 999999999999999, 12], ',']), ('jsonStringify', [[1234567890123, {'k': 10 ** 14 + 7}]]), ('stringLength', [123456789012345]), ('stringFromCharCode', [55357, 56832]), ('stringFromCharCode', [56832, 55357, 65]), ('stringFromCharCode', [55357]), ('arrayIndexOf', [[1700000000000, 1700000000001], 1700000000001]), ('arrayLastIndexOf', [[1700000000001, 1700000000000], 1700000000001]), ('arraySort', [[1700000000001, 1700000000000, 1700000000002]]), ('mathMax', [1700000000000, 1700000000001]), ('mathMin', [1700000000001, 1700000000000]), ('mathLog', [8, 2])]:
         one_case(name, args, acc, api)
     acc.sample({'fn': 'arraySet', 'args': [[1, 2, 3], 1, 9], 'spellings': ['index as int 1', 'index as float 1.0']}, limit=1)
 
